@@ -143,6 +143,26 @@ def run_case(ck, desc):
         if not ck.margin("rho_o*Bo=stock-tank+dissolved-gas", abs(d * b / w - 1), 1e-12):
             ck.violation("rho_o*Bo=stock-tank+dissolved-gas", {"p": p, "rho*Bo": d * b, "want": w}, desc)
         ck.count("oil_state_points")
+    # the same identity when the correlations are given a pressure ARRAY through the bubble point
+    # (float and integer grids): an element's density must not depend on what else is in the array
+    pa = np.array(sorted(desc["oil_p"]))
+    for arr, label in ((pa, "f8"), (np.round(pa).astype("i8"), "i8"), (pa[::-1].copy(), "f8-descending")):
+        da = np.asarray(oil.density_Standing(To, arr, api, gg, gor), dtype=float)
+        ba = np.asarray(oil.b_o_Standing(To, arr, api, gg, gor), dtype=float)
+        ra = np.asarray(oil.solution_gor_Standing(To, arr, api, gg, gor), dtype=float)
+        wa = 62.37 * og + 0.0136 * gg * np.array([float(oil.solution_gor_Standing(To, float(x), api, gg, gor)) for x in arr])
+        e = float(np.max(np.abs(da * ba / wa - 1)))
+        if not ck.margin("rho_o*Bo=stock-tank+dissolved-gas (array call)", e, 1e-12):
+            ck.violation("rho_o*Bo=stock-tank+dissolved-gas", {"array_dtype": label, "worst_rel": e, "p": arr.tolist(), "Rs_array": ra.tolist()}, desc)
+        ck.count("oil_array_calls")
+    wp = np.array(desc["water_p"])
+    for arr in (wp, np.round(wp).astype("i8")):
+        da = np.asarray(water.density_water_McCain(desc["water"][0], arr, desc["water"][1]), dtype=float)
+        ba = np.asarray(water.b_water_McCain(desc["water"][0], arr), dtype=float)
+        stdw = 62.368 + 0.438603 * desc["water"][1] + 1.60074e-3 * desc["water"][1] ** 2
+        e = float(np.max(np.abs(da * ba / stdw - 1)))
+        if not ck.margin("rho_w*Bw=brine-standard-density (array call)", e, 1e-12):
+            ck.violation("rho_w*Bw=brine-standard-density", {"array_dtype": str(arr.dtype), "worst_rel": e}, desc)
     # water: density x Bw = brine density at standard conditions
     Tw, sal = desc["water"]
     std = 62.368 + 0.438603 * sal + 1.60074e-3 * sal**2
